@@ -113,11 +113,74 @@ def purge_alias():
         del sys.modules[n]
 
 
+class _BuiltinCalls:
+    """Mechanical rewrite applied to every verified module: `int(x)` / `float(x)` (the builtins, one positional argument) become
+    `_vf_int_(x)` / `_vf_float_(x)`.  CPython insists that __int__/__float__ return a concrete number, so without the rewrite a
+    symbolic operand could not pass through these conversions; on concrete operands the helpers call the builtins."""
+
+    def __call__(self, tree):
+        import ast
+        shadowed = {n.id for n in ast.walk(tree) if isinstance(n, ast.Name) and isinstance(n.ctx, ast.Store) and n.id in ('int', 'float')}
+        shadowed |= {a.arg for n in ast.walk(tree) if isinstance(n, ast.arguments) for a in n.args + n.kwonlyargs if a.arg in ('int', 'float')}
+        self.count = 0
+        outer = self
+
+        class T(ast.NodeTransformer):
+            def visit_Call(self, node):
+                self.generic_visit(node)
+                if (isinstance(node.func, ast.Name) and node.func.id in ('int', 'float') and node.func.id not in shadowed
+                        and len(node.args) == 1 and not node.keywords and not isinstance(node.args[0], ast.Starred)):
+                    node.func = ast.copy_location(ast.Name(id=f'_vf_{node.func.id}_', ctx=ast.Load()), node.func)
+                    outer.count += 1
+                return node
+        return ast.fix_missing_locations(T().visit(tree))
+
+
+def _vf_int_(x):
+    from . import pysym
+    if isinstance(x, pysym.SymInt):
+        return x
+    if isinstance(x, pysym.SymReal):
+        return pysym.sym_trunc(x)
+    if getattr(type(x), 'vf_int', None) is not None:
+        return x.vf_int()
+    return int(x)
+
+
+def _vf_float_(x):
+    from . import pysym
+    if isinstance(x, pysym.SymReal):
+        return x
+    if isinstance(x, pysym.SymInt):
+        import z3
+        return pysym.SymReal(z3.ToReal(x.t))
+    if getattr(type(x), 'vf_float', None) is not None:
+        return x.vf_float()
+    return float(x)
+
+
+BUILTIN_INJECT = {'_vf_int_': _vf_int_, '_vf_float_': _vf_float_}
+
+
+def builtin_calls(transform=None):
+    """the default module transform (int/float rewrite), optionally followed by a contract-specific one"""
+    b = _BuiltinCalls()
+
+    def t(tree):
+        tree = b(tree)
+        return transform(tree) if transform is not None else tree
+    return t
+
+
 def _exec_transformed(full, path, transform, inject):
     """import the module at `path` as `full`, with its AST passed through `transform` (mechanical, re-done on every run)"""
     import ast
     spec = importlib.util.spec_from_file_location(full, path)
     m = importlib.util.module_from_spec(spec)
+    g = m.__dict__
+    # a contract may shadow `int` / `float` in the module's globals (as the unrewritten code would see it): that binding wins
+    g['_vf_int_'] = lambda x, _g=g: _g['int'](x) if 'int' in _g else _vf_int_(x)
+    g['_vf_float_'] = lambda x, _g=g: _g['float'](x) if 'float' in _g else _vf_float_(x)
     m.__dict__.update(inject or {})
     with open(path) as f:
         src = f.read()
@@ -166,9 +229,9 @@ def load(mod, model_modules, real_init=(), preload=(), extra=None, alias_abs=(),
         path = os.path.join(SRC, *parts)
         if os.path.isdir(path) and mod not in real_init:
             return _synthetic_pkg(full, path)
-        if transform is not None:
-            return _exec_transformed(full, source_path(mod), transform, inject)
-        return importlib.import_module(full)
+        if full in sys.modules:
+            return sys.modules[full]
+        return _exec_transformed(full, source_path(mod), builtin_calls(transform), inject)
 
 
 def load_real(mod):
